@@ -51,7 +51,7 @@ theorem bringup_final (c : Board.Case) (h : WfCase c) :
       simp at this
     | some l =>
       dsimp only
-      have hm : step c {} (.pon 0) = some (enterLnx l 0 {}) := by simp [step, hub, hlnx]; rfl
+      have hm : step c {} (.pon 0) = some (enterLnx l 0 {}) := by simp [step, hub, hlnx]
       have hinv := powerOn_inv c h _ hm rfl rfl
       have hok := h.lnx l hlnx
       rw [hub] at hok
@@ -63,7 +63,7 @@ theorem bringup_final (c : Board.Case) (h : WfCase c) :
     obtain ⟨huok, hcap⟩ := h.ub u hub
     have hm : step c {} (.pon 0) = some { wait (if u.autoboot.isSome then .ubAuto else .ubLoop) 0 0 {} with
         start := 0, ubSet := u.autoboot.isNone } := by
-      simp [step, hub]; rfl
+      simp [step, hub]
     have hinv := powerOn_inv c h _ hm rfl rfl
     have hup := ubUp_sim c u (powerOn c) _
       { inv := hinv, cfg := hub, streams := rfl, mstart := rfl, lastT := rfl, lnxSet := rfl, lnxLog := rfl, ge := Nat.le_refl _ }
@@ -80,7 +80,6 @@ theorem bringup_final (c : Board.Case) (h : WfCase c) :
         refine ⟨m1, hu1.inv.mon, ?_, by rw [hu1.ubSet]; exact hu1.ubLog, by rw [hu1.lnxSet]; exact hu1.lnxLog⟩
         show accept c m1 b1.st.now none = true
         simp [accept, hlnx, hph1, hu1.lastT]
-        rfl
     | some l =>
       dsimp only
       have hok := h.lnx l hlnx
